@@ -1418,4 +1418,141 @@ theorem isort_dofs_eq_selIdx {e : Env} {s : State} (hI : Inv e s) (sel l : List 
     simp only [List.mem_filter, decide_eq_true_eq]
     exact ⟨fun h => ⟨hreg i h, h⟩, fun h => h.2⟩
 
+/-! ### removal of several variables: canonical result -/
+
+theorem cluster_canonical (e : Env) (s : State) (h : PreInv e s) : Canonical e (cluster e s) := by
+  refine ⟨rfl, ?_⟩
+  show (clusterOrder e s.vars).map (fun v => sizeOf s v.id) = (clusterOrder e s.vars).map (varSize e)
+  apply List.map_congr_left
+  intro v hv
+  exact h.sizeOk v ((mem_clusterOrder e s.vars v).mp hv).1
+
+theorem state_ext (a b : State) (h1 : a.vars = b.vars) (h2 : a.numbers = b.numbers) (h3 : a.sizes = b.sizes)
+    (h4 : a.store = b.store) (h5 : a.next = b.next) : a = b := by
+  cases a; cases b; simp_all
+
+/-- `del self._variables[id]`, `self._variable_numbers.pop(id)` -/
+def popVar (s : State) (i : Nat) : State :=
+  { s with vars := s.vars.filter (fun v => v.id != i), numbers := s.numbers.filter (fun p => p.1 != i) }
+
+theorem removeLoop_cons_pos (e : Env) (s : State) (i : Nat) (r : List Nat)
+    (h : s.vars.any (fun v => v.id == i) = true) :
+    removeLoop e s (i :: r) = removeLoop e (cluster e (popVar s i)) r := by
+  rw [removeLoop, if_pos h]; rfl
+
+theorem any_of_registered (s : State) (i : Nat) (h : i ∈ s.vars.map (·.id)) :
+    s.vars.any (fun v => v.id == i) = true := by
+  obtain ⟨v, hv, hvi⟩ := List.mem_map.mp h
+  rw [List.any_eq_true]
+  exact ⟨v, hv, by simp [hvi]⟩
+
+theorem registered_after_pop (e : Env) (s : State) (i j : Nat) (hji : j ≠ i) (h : j ∈ s.vars.map (·.id)) :
+    j ∈ (cluster e (popVar s i)).vars.map (·.id) := by
+  obtain ⟨v, hv, hvj⟩ := List.mem_map.mp h
+  exact List.mem_map.mpr ⟨v, List.mem_filter.mpr ⟨hv, by simp [hvj, hji]⟩, hvj⟩
+
+theorem removeLoop_spec (e : Env) (hn : e.order.Nodup) (ids : List Nat) (s : State) (hI : Inv e s)
+    (hnd : ids.Nodup) (hreg : ∀ i ∈ ids, i ∈ s.vars.map (·.id)) (hc : Canonical e s ∨ ids ≠ []) :
+    (removeLoop e s ids).2 = .ok () ∧
+    (removeLoop e s ids).1.vars = s.vars.filter (fun v => !(ids.contains v.id)) ∧
+    Canonical e (removeLoop e s ids).1 ∧ Inv e (removeLoop e s ids).1 ∧
+    (removeLoop e s ids).1.store = s.store ∧ (removeLoop e s ids).1.next = s.next := by
+  induction ids generalizing s with
+  | nil =>
+    refine ⟨rfl, ?_, ?_, hI, rfl, rfl⟩
+    · show s.vars = s.vars.filter (fun v => !(([] : List Nat).contains v.id))
+      exact (List.filter_eq_self.mpr (fun _ _ => rfl)).symm
+    · rcases hc with hc | hc
+      · exact hc
+      · exact absurd rfl hc
+  | cons i r ih =>
+    rw [removeLoop_cons_pos e s i r (any_of_registered s i (hreg i List.mem_cons_self))]
+    have hpre : PreInv e (popVar s i) := pop_preinv e s i hI.pre
+    have hI1 := cluster_inv e hn _ hpre
+    have hc1 := cluster_canonical e _ hpre
+    obtain ⟨r1, r2, r3, r4, r5, r6⟩ := ih _ hI1 (List.nodup_cons.mp hnd).2
+      (fun j hj => registered_after_pop e s i j (fun e => (List.nodup_cons.mp hnd).1 (e ▸ hj))
+        (hreg j (List.mem_cons_of_mem _ hj))) (Or.inl hc1)
+    refine ⟨r1, ?_, r3, r4, r5, r6⟩
+    rw [r2]
+    show (s.vars.filter (fun v => v.id != i)).filter _ = _
+    rw [List.filter_filter]
+    apply List.filter_congr
+    intro v _
+    by_cases h : v.id = i
+    · simp [h]
+    · have h' : ¬ i = v.id := fun e => h e.symm
+      simp [h, h']
+
+theorem seqRemove_eq (e : Env) (hn : e.order.Nodup) (ids : List Nat) (s : State) (hI : Inv e s)
+    (hnd : ids.Nodup) (hreg : ∀ i ∈ ids, i ∈ s.vars.map (·.id)) :
+    seqRemove e s ids = (removeLoop e s ids).1 := by
+  induction ids generalizing s with
+  | nil => rfl
+  | cons i r ih =>
+    have hany := any_of_registered s i (hreg i List.mem_cons_self)
+    have h1 : (removeLoop e s [i]).1 = cluster e (popVar s i) := by
+      rw [removeLoop_cons_pos e s i [] hany]; rfl
+    have hI1 := cluster_inv e hn _ (pop_preinv e s i hI.pre)
+    show seqRemove e (removeLoop e s [i]).1 r = _
+    rw [h1, removeLoop_cons_pos e s i r hany]
+    exact ih _ hI1 (List.nodup_cons.mp hnd).2
+      (fun j hj => registered_after_pop e s i j (fun e => (List.nodup_cons.mp hnd).1 (e ▸ hj))
+        (hreg j (List.mem_cons_of_mem _ hj)))
+
+theorem removeLoop_perm (e : Env) (hn : e.order.Nodup) (s : State) (hI : Inv e s) (ids ids' : List Nat)
+    (hp : ids.Perm ids') (hnd : ids.Nodup) (hreg : ∀ i ∈ ids, i ∈ s.vars.map (·.id)) :
+    (removeLoop e s ids).1 = (removeLoop e s ids').1 := by
+  by_cases hnil : ids = []
+  · subst hnil
+    have : ids' = [] := List.Perm.eq_nil (hp.symm)
+    subst this; rfl
+  · have hnil' : ids' ≠ [] := fun e => hnil (List.Perm.eq_nil (e ▸ hp))
+    obtain ⟨_, a2, a3, _, a5, a6⟩ := removeLoop_spec e hn ids s hI hnd hreg (Or.inr hnil)
+    obtain ⟨_, b2, b3, _, b5, b6⟩ := removeLoop_spec e hn ids' s hI (hp.nodup_iff.mp hnd)
+      (fun i hi => hreg i (hp.mem_iff.mpr hi)) (Or.inr hnil')
+    have hv : (removeLoop e s ids).1.vars = (removeLoop e s ids').1.vars := by
+      rw [a2, b2]
+      apply List.filter_congr
+      intro v _
+      have : ids.contains v.id = ids'.contains v.id := by
+        rw [Bool.eq_iff_iff]; simp [hp.mem_iff]
+      rw [this]
+    apply state_ext _ _ hv
+    · rw [a3.1, b3.1, hv]
+    · rw [a3.2, b3.2, hv]
+    · rw [a5, b5]
+    · rw [a6, b6]
+
+/-! ### index validation -/
+
+theorem getLoop_error_slot (vars : List Var) (st : Store) (sel : List Nat) (err : Err)
+    (nums : List (Nat × Nat)) (hf : ∀ p ∈ nums, ∃ v, findVar vars p.1 = some v) :
+    getLoop vars st sel (.error err) nums =
+      if nums.filter (fun p => p.1 ∈ sel) = [] then .ok [] else .error err := by
+  induction nums with
+  | nil => rfl
+  | cons p rest ih =>
+    by_cases hp : p.1 ∈ sel
+    · obtain ⟨v, hv⟩ := hf p List.mem_cons_self
+      rw [getLoop, if_pos hp, List.filter_cons_of_pos (by simpa using hp)]
+      simp [hv]
+    · rw [getLoop_cons_neg _ _ _ _ _ _ hp, ih (fun q hq => hf q (List.mem_cons_of_mem _ hq)),
+        List.filter_cons_of_neg (by simpa using hp)]
+
+theorem setLoop_error_slot (vars : List Var) (sizes sel : List Nat) (err : Err) (a : Bool)
+    (values : List Rat) (st : Store) (start : Nat) (nums : List (Nat × Nat))
+    (hf : ∀ p ∈ nums, ∃ v, findVar vars p.1 = some v) :
+    setLoop vars sizes sel (.error err) a values st start nums =
+      (st, if nums.filter (fun p => p.1 ∈ sel) = [] then .ok start else .error err) := by
+  induction nums with
+  | nil => rfl
+  | cons p rest ih =>
+    by_cases hp : p.1 ∈ sel
+    · obtain ⟨v, hv⟩ := hf p List.mem_cons_self
+      rw [setLoop, if_pos hp, List.filter_cons_of_pos (by simpa using hp)]
+      simp [hv]
+    · rw [setLoop_cons_neg _ _ _ _ _ _ _ _ _ _ hp, ih (fun q hq => hf q (List.mem_cons_of_mem _ hq)),
+        List.filter_cons_of_neg (by simpa using hp)]
+
 end PorepyVerif.C05
